@@ -147,10 +147,10 @@ func (s *Service) onFindNode(ctx context.Context, peer p2p.Peer, stream p2p.Stre
 	skip := []boson.Address{peer.Address}
 
 	var (
-		limitConn  = 1
-		limitKnown = 1
+		limitConn  = 0
+		limitKnown = 0
 	)
-	if req.Limit > 2 {
+	if req.Limit > 0 {
 		limitKnown = int(req.Limit / 2)
 		limitConn = int(req.Limit) - limitKnown
 	}
